@@ -31,3 +31,8 @@ fn f3_disas_constant_is_repaired() {
 fn f4_builder_selection_is_repaired() {
     assert_eq!(0, replay("C12", "F4-builder-selection-00.json"));
 }
+
+#[test]
+fn f11_find_return_blocks_is_repaired() {
+    assert_eq!(0, replay("C12", "F11-find-return-blocks-00.json"));
+}
